@@ -104,7 +104,7 @@ func init() {
 	base := WorldProp{ID: "C08", Name: "C08"}
 	base.Invariants = func() []Invariant { return nil }
 	base.Config = determinismConfig
-	base.Gen = GenOpts{Weights: determinismWeights(), HostilePct: 6, ExtremePct: 0, Anchor: true, Tempos: []int{4, 15, 40}, CapBits: 40, ClampBits: 50}
+	base.Gen = GenOpts{Weights: determinismWeights(), HostilePct: 6, ExtremePct: 0, Anchor: true, Tempos: []int{4, 15, 40}, CapBits: 40, ClampBits: 40}
 	base.MinSteps, base.MaxSteps = 40, 120
 	base.Tail = func(m *Machine) []Action {
 		return []Action{{Kind: "nextBlock", Dt: 61}, {Kind: "nextBlock", Dt: 3}, {Kind: "nextBlock", Dt: 61}, {Kind: "nextBlock", Dt: 3}}
